@@ -33,7 +33,7 @@ META = {
                   'Gregorian calendar); metomi.isodatetime is not used by '
                   'the oracle.',
     'design_ref': 'DESIGN.md §5 C18',
-    'budget': {'quick': 90, 'thorough': 900},
+    'budget': {'quick': 120, 'thorough': 1200},
 }
 RULE = ('case = one configuration (integer, or calendar × time zone × '
         'expanded-year digits × dump format) with a pool of points and '
